@@ -169,7 +169,7 @@ HApply(st, c) ==
            [] c.op = "close"         -> Close(st, c)
            [] c.op \in {"freaddir", "freaddirnames"} -> FReadDir(st, c)
 
-Apply(st, c) == IF c.op \in HOps THEN HApply(st, c) ELSE NsApply(st, c)
+BaseApply(st, c) == IF c.op \in HOps THEN HApply(st, c) ELSE NsApply(st, c)
 
 \* every admissible strict outcome of a call (a singleton except for directory batch reads and
 \* for the one corner where the property's clauses disagree: closed handle and negative offset)
@@ -184,7 +184,7 @@ StrictOutcomes(st, c) ==
                    ELSE IF c.off < 0 THEN {Fail("NEGOFF", st)}
                    ELSE IF c.op = "readat" /\ c.n = 0 THEN {Ok(st)}
                    ELSE {})
-    ELSE {Apply(st, c)}
+    ELSE {BaseApply(st, c)}
 
 (***************************************************************************)
 (* Observable and canonical views of the handle table.                     *)
